@@ -75,7 +75,13 @@ def run(rep, rng, tier):
         b, _ = c01.gen_record(rng, len(a))
         al, be = rng.choice([(2.0, -3.0), (1.0, 1.0), (0.5, 0.0), (-1.0, 0.25), (rng.uniform(-3, 3), rng.uniform(-3, 3))])
         args = {'dt': dt, 'xi': xi, 'periods': periods, 'a': list(map(float, a)), 'b': list(map(float, b)), 'alpha': al, 'beta': be}
-        ra, rb, rab = (guarded(rs, x, dt, periods, xi) for x in (a, b, al * a + be * b))
+        dtype = rng.choice([None, None, None, np.int32, np.float32])
+        if dtype is not None:    # records stored as integers / single precision, combination exactly representable in that dtype
+            a, b = np.round(a * 4), np.round(b * 4)
+            al, be = rng.choice([(2.0, -3.0), (1.0, 1.0), (-1.0, 2.0)])
+            args.update({'a': list(map(float, a)), 'b': list(map(float, b)), 'alpha': al, 'beta': be, 'dtype': np.dtype(dtype).name})
+        cast = (lambda x: x) if dtype is None else (lambda x: np.array(x).astype(dtype))
+        ra, rb, rab = (guarded(sdof.response_series, cast(x), dt, np.array(periods, dtype=float), xi) for x in (a, b, al * a + be * b))
         if any(isinstance(x, ImplError) for x in (ra, rb, rab)):
             viol('response_series[linearity]', args, [x for x in (ra, rb, rab) if isinstance(x, ImplError)][0])
             continue
